@@ -161,12 +161,16 @@ class Flow:
                 out.absorb(o)
                 cur = o.normal
                 i += 1
+            var_decl = None
             if n.get('hasVar'):
                 o = self.run(ch[i], cur)
                 out.absorb(o)
                 cur = o.normal
+                var_decl = ch[i]
                 i += 1
-            ts, fs = self._cond_states(ch[i], cur, out)
+            # `if (auto v = init)`: the condition proper is just `v`; clients that ask for it are shown the declaration (with init)
+            cnode = var_decl if (var_decl is not None and getattr(self.c, 'cond_sees_var_init', False)) else ch[i]
+            ts, fs = self._cond_states(cnode, cur, out)
             o = self.run(ch[i + 1], ts)
             out.absorb(o, True)
             if len(ch) > i + 2:
